@@ -1238,6 +1238,8 @@ var certificateRequestCorpus = []string{ //nolint:gochecknoglobals
 	"01 40 0004 0403 ffff 0000",         // unknown signature scheme
 	"01 40 0001 04 0000",                // odd algorithms length
 	"01 40 0003 0403 04 0000",           // odd algorithms length
+	// odd length: 04 + the first byte of the authorities length (0100) reads as rsa_pkcs1_sha256
+	"01 40 0001 04 0100 00fe" + strings.Repeat("aa", 254),
 	"01 40 0002 0403 0002 0000",         // one authority of length zero
 	"01 40 0002 0403 0005 0001 aa 0000", // two authorities, the second empty
 	"01 40 0002 0403 0003 0002 aa",      // authority longer than the list
@@ -1401,6 +1403,163 @@ func envelopeCodec2(kx int) *v.Codec {
 	}
 }
 
+// ---------------------------------------------------------------- edge values (see hs.go)
+
+func clientHelloEdges() []v.Edge {
+	base := func() *handshake.MessageClientHello {
+		return &handshake.MessageClientHello{
+			Version: protocol.Version1_2, SessionID: []byte{}, Cookie: []byte{}, CipherSuiteIDs: []uint16{0xc02b},
+			CompressionMethods: []*protocol.CompressionMethod{protocol.CompressionMethods()[0]},
+			Extensions:         []extension.Value{},
+		}
+	}
+	suites := func(n int) func() handshake.Message {
+		return func() handshake.Message {
+			m := base()
+			m.CipherSuiteIDs = make([]uint16, n)
+			for i := range m.CipherSuiteIDs {
+				m.CipherSuiteIDs[i] = 0xc02b
+			}
+
+			return m
+		}
+	}
+
+	return []v.Edge{
+		edgeOf("cipher-suites-32767", true, suites(32767)),
+		edgeOf("cipher-suites-32768", false, suites(32768)),
+		edgeOf("cipher-suites-32770", false, suites(32770)),
+		edgeOf("session-id-255", true, func() handshake.Message { m := base(); m.SessionID = fill(255, 0x5e); return m }),
+		edgeOf("session-id-256", false, func() handshake.Message { m := base(); m.SessionID = fill(256, 0x5e); return m }),
+		edgeOf("cookie-255", true, func() handshake.Message { m := base(); m.Cookie = fill(255, 0xc0); return m }),
+		edgeOf("cookie-256", false, func() handshake.Message { m := base(); m.Cookie = fill(256, 0xc0); return m }),
+		edgeOf("compression-methods-256", false, func() handshake.Message {
+			m := base()
+			m.CompressionMethods = make([]*protocol.CompressionMethod, 256)
+			for i := range m.CompressionMethods {
+				m.CompressionMethods[i] = protocol.CompressionMethods()[0]
+			}
+
+			return m
+		}),
+	}
+}
+
+func serverKeyExchangeEdges(kx int) []v.Edge {
+	alg := types.KeyExchangeAlgorithm(kx)
+	mk := func(hint []byte, pk, sig int) func() handshake.Message {
+		return func() handshake.Message {
+			m := &handshake.MessageServerKeyExchange{IdentityHint: hint, KeyExchangeAlgorithm: alg, Signature: []byte{}}
+			if pk >= 0 {
+				m.EllipticCurveType, m.NamedCurve, m.PublicKey = elliptic.CurveTypeNamedCurve, elliptic.X25519, fill(pk, 7)
+			} else {
+				m.PublicKey = []byte{}
+			}
+			if sig > 0 {
+				m.HashAlgorithm, m.SignatureAlgorithm, m.Signature = 4, signature.ECDSA, fill(sig, 0x51)
+			}
+
+			return m
+		}
+	}
+	switch kx {
+	case 2:
+		return []v.Edge{
+			edgeOf("hint-65535", true, mk(fill(65535, 0x68), -1, 0)),
+			edgeOf("hint-65536", false, mk(fill(65536, 0x68), -1, 0)),
+		}
+	case 4:
+		return []v.Edge{
+			edgeOf("public-key-255", true, mk(nil, 255, 0)),
+			edgeOf("public-key-256", false, mk(nil, 256, 0)),
+			edgeOf("public-key-288", false, mk(nil, 288, 0)),
+			edgeOf("signature-65535", true, mk(nil, 32, 65535)),
+			edgeOf("signature-65536", false, mk(nil, 32, 65536)),
+		}
+	case 6:
+		return []v.Edge{
+			edgeOf("hint-65535-public-key-255", true, mk(fill(65535, 0x68), 255, 0)),
+			edgeOf("hint-65536", false, mk(fill(65536, 0x68), 32, 0)),
+			edgeOf("public-key-256", false, mk([]byte("hi"), 256, 0)),
+		}
+	}
+
+	return nil
+}
+
+func certificateRequestEdges() []v.Edge {
+	mk := func(types_, algs int, names ...int) func() handshake.Message {
+		return func() handshake.Message {
+			m := &handshake.MessageCertificateRequest{
+				CertificateTypes:            []clientcertificate.Type{},
+				SignatureHashAlgorithms:     []signaturehash.Algorithm{},
+				CertificateAuthoritiesNames: [][]byte{},
+			}
+			for i := 0; i < types_; i++ {
+				m.CertificateTypes = append(m.CertificateTypes, clientcertificate.ECDSASign)
+			}
+			for i := 0; i < algs; i++ {
+				m.SignatureHashAlgorithms = append(m.SignatureHashAlgorithms, signaturehash.Algorithm{Hash: 4, Signature: signature.ECDSA})
+			}
+			for i, n := range names {
+				m.CertificateAuthoritiesNames = append(m.CertificateAuthoritiesNames, fill(n, byte(i)))
+			}
+
+			return m
+		}
+	}
+	hundred := make([]int, 700)
+	for i := range hundred {
+		hundred[i] = 100
+	}
+
+	return []v.Edge{
+		// certificate_authorities<0..2^16-1>: the length of the vector counts two bytes per name
+		edgeOf("authorities-65535-bytes", true, mk(1, 1, 65533)),
+		edgeOf("authorities-65536-bytes", false, mk(1, 1, 65534)),
+		edgeOf("authorities-700-names-of-100", false, mk(1, 1, hundred...)),
+		edgeOf("authority-name-65536", false, mk(1, 1, 65536)),
+		// supported_signature_algorithms<2..2^16-2>
+		edgeOf("signature-algorithms-32767", true, mk(1, 32767)),
+		edgeOf("signature-algorithms-32768", false, mk(1, 32768)),
+		edgeOf("certificate-types-255", true, mk(255, 1)),
+		edgeOf("certificate-types-256", false, mk(256, 1)),
+	}
+}
+
+func newSessionTicketEdges() []v.Edge {
+	mk := func(nonce, ticket int) func() handshake.Message {
+		return func() handshake.Message {
+			return &handshake.MessageNewSessionTicket{
+				TicketLifetime: 3600, TicketAgeAdd: 1, TicketNonce: fill(nonce, 0x6e), Ticket: fill(ticket, 0x74),
+				Extensions: []extension.Value{},
+			}
+		}
+	}
+
+	return []v.Edge{
+		edgeOf("ticket-65535", true, mk(1, 65535)),
+		edgeOf("ticket-65536", false, mk(1, 65536)),
+		edgeOf("nonce-255", true, mk(255, 1)),
+		edgeOf("nonce-256", false, mk(256, 1)),
+	}
+}
+
+// serverKeyExchangeLongHint is a well-formed ECDHE_PSK ServerKeyExchange whose 768-byte identity
+// hint (declared length 0x0300) starts with 1d 20: cut after 36 bytes, the hint length points
+// far beyond the input while the bytes read as "named_curve x25519, 32-byte point".
+func serverKeyExchangeLongHint() []byte {
+	hint := make([]byte, 768)
+	hint[0], hint[1] = 0x1d, 0x20
+	for i := 2; i < len(hint); i++ {
+		hint[i] = byte(i)
+	}
+	out := append([]byte{0x03, 0x00}, hint...)
+	out = append(out, 0x03, 0x00, 0x1d, 0x20)
+
+	return append(out, fill(32, 0x42)...)
+}
+
 // Codecs2 returns the codecs without a Coq model: ClientHello (101), ServerHello (102),
 // ServerKeyExchange under key-exchange context 2/4/6 (103), CertificateRequest (104),
 // NewSessionTicket (105), EncryptedExtensions (106), Certificate13 (107), CertificateRequest13
@@ -1412,6 +1571,7 @@ func Codecs2() []*v.Codec {
 			func(r *v.Rand) handshake.Message { return GenClientHello(r) },
 			clientHelloCorpus, clientHelloValid),
 	}
+	out[0].Edges = clientHelloEdges()
 	style := 0
 	out = append(out, msgCodec2("server_hello", 102, nil,
 		func() handshake.Message { return &handshake.MessageServerHello{} },
@@ -1435,6 +1595,10 @@ func Codecs2() []*v.Codec {
 				return nil
 			},
 			serverKeyExchangeCorpus, nil))
+		out[len(out)-1].Edges = serverKeyExchangeEdges(kx)
+		if kx == 6 {
+			out[len(out)-1].CorpusValid = [][]byte{serverKeyExchangeLongHint()}
+		}
 	}
 	out = append(out,
 		msgCodec2("certificate_request", 104, nil,
@@ -1458,6 +1622,14 @@ func Codecs2() []*v.Codec {
 			func(r *v.Rand) handshake.Message { return GenCertificateRequest13(r) },
 			certificateRequest13Corpus, nil),
 	)
+	for _, c := range out {
+		switch c.ID {
+		case 104:
+			c.Edges = certificateRequestEdges()
+		case 105:
+			c.Edges = newSessionTicketEdges()
+		}
+	}
 	for _, kx := range []int{0, 2, 4, 6} {
 		out = append(out, envelopeCodec2(kx))
 	}
